@@ -163,3 +163,146 @@ int run_collapse_micro(const Args& a) {
     drain_alloc_problems(rep);
     return rep.finish();
 }
+
+// C08: first puts into an empty tree (null root) race for the root pointer;
+// every put that returned OK must be reachable afterwards.
+int run_root_race(const Args& a) {
+    uint64_t seed = a.num("seed", 1);
+    uint64_t rounds = a.num("rounds", 3000);
+    Report rep(a.str("prop", "C08"), "conc_root_race", seed);
+    rep.set_rule("per round an empty tree (fresh tree_instance with a null root; every 4th round the storage directory itself after destroy()) receives its first keys from 2..8 threads released by one barrier (random skew 0..300 pause cycles; "
+                 "1..3 keys per thread, short / multi-layer); afterwards (quiescent) every key whose put (or create_storage) returned OK must be found by get and by a full scan, the walker must reach exactly those keys, and after "
+                 "destroying the tree the allocation registry must hold no block of it. distinct_nontrivial = rounds in which the allocation counters show a lost root race, by (threads, keys per thread, key class, directory?)");
+    yk::init();
+    Rng r(seed);
+    std::atomic<uint64_t> next_id{1};
+    uint64_t lost_races = 0;
+    for (uint64_t rd = 0; rd < rounds && rep.violations() < 8; ++rd) {
+        int T = static_cast<int>(r.range(2, 8));
+        int per = static_cast<int>(r.range(1, 3));
+        int kclass = static_cast<int>(r.below(3));
+        bool directory = rd % 4 == 3;
+        uint32_t skew[8];
+        for (auto& s : skew) { s = static_cast<uint32_t>(r.below(r.chance(1, 2) ? 30 : 300)); }
+        std::vector<std::vector<std::string>> keys(T);
+        for (int t = 0; t < T; ++t) {
+            for (int i = 0; i < per; ++i) {
+                std::string k = kclass == 0 ? "r" + std::to_string(t) + "_" + std::to_string(i)
+                                : kclass == 1 ? "ROOTRACE" + std::to_string(t) + "_" + std::to_string(i)
+                                              : "ROOTRACEROOTRACE_with_a_long_tail_" + std::to_string(t) + "_" + std::to_string(i);
+                keys[t].push_back(k);
+            }
+        }
+        std::vector<std::vector<status>> out(T);
+        alloc::Counters c0 = alloc::counters();
+        if (directory) {
+            yk::destroy(); // the directory tree has a null root again
+            run_round(T, seed * 613 + rd, [&](int tid) {
+                for (uint32_t k = skew[tid]; k > 0; --k) { _mm_pause(); }
+                for (auto& k : keys[tid]) {
+                    out[tid].push_back(yk::create_storage(k));
+                    g_progress.fetch_add(1, std::memory_order_relaxed);
+                }
+            });
+            rep.eval();
+            std::vector<std::pair<std::string, yk::tree_instance*>> lst;
+            yk::list_storages(lst);
+            std::set<std::string> listed;
+            for (auto& [n, p] : lst) {
+                (void) p;
+                listed.insert(n);
+            }
+            std::size_t ok = 0;
+            for (int t = 0; t < T; ++t) {
+                for (std::size_t i = 0; i < keys[t].size(); ++i) {
+                    if (out[t][i] != status::OK) {
+                        rep.violation("rootrace:create-status", "create_storage of a fresh name failed", JObj().str("got", st(out[t][i])).done());
+                        continue;
+                    }
+                    ++ok;
+                    if (yk::find_storage(keys[t][i]) != status::OK || listed.count(keys[t][i]) == 0U) {
+                        rep.violation("rootrace:created-storage-unreachable", "create_storage returned OK but the storage cannot be found afterwards (first entries of an empty directory created concurrently)",
+                                      JObj().str("name", keys[t][i]).num("threads", T).num("listed", listed.size()).num("round", rd).done());
+                    }
+                }
+            }
+            if (listed.size() != ok) { rep.violation("rootrace:directory-size", "number of listed storages differs from the number of successful creates", JObj().num("listed", listed.size()).num("created", ok).done()); }
+            yk::destroy();
+        } else {
+            auto* ti = new yk::tree_instance();
+            run_round(T, seed * 613 + rd, [&](int tid) {
+                Session s;
+                s.reenter();
+                for (uint32_t k = skew[tid]; k > 0; --k) { _mm_pause(); }
+                for (auto& k : keys[tid]) {
+                    std::string v = make_value(next_id.fetch_add(1), k, 40);
+                    out[tid].push_back(yk::put<char>(s.tok, ti, k, v.data(), false, v.size()));
+                    g_progress.fetch_add(1, std::memory_order_relaxed);
+                }
+                s.leave();
+            });
+            rep.eval();
+            Walker w(false);
+            WalkResult wr = w.walk(ti);
+            for (auto& [ek, ed] : wr.errors) { rep.violation("walker:" + ek, "structure after racing first puts", ed); }
+            std::set<std::string> reach;
+            for (auto& e : wr.entries) { reach.insert(e.key); }
+            std::vector<ScanTuple> tl;
+            yk::scan<char>(ti, "", scan_endpoint::INF, "", scan_endpoint::INF, tl, nullptr, 0, false);
+            std::set<std::string> scanned;
+            for (auto& t : tl) { scanned.insert(std::get<0>(t)); }
+            std::size_t ok = 0;
+            for (int t = 0; t < T; ++t) {
+                for (std::size_t i = 0; i < keys[t].size(); ++i) {
+                    if (out[t][i] != status::OK) {
+                        rep.violation("rootrace:put-status", "first put into an empty tree failed", JObj().str("got", st(out[t][i])).done());
+                        continue;
+                    }
+                    ++ok;
+                    std::pair<char*, std::size_t> g{nullptr, 0};
+                    status gs = yk::get<char>(ti, keys[t][i], g);
+                    uint64_t vid = 0;
+                    bool bad = gs != status::OK || check_value(g.first, g.second, keys[t][i], vid) != ValCheck::OK;
+                    if (bad || reach.count(keys[t][i]) == 0U || scanned.count(keys[t][i]) == 0U) {
+                        rep.violation("rootrace:acknowledged-key-unreachable", "put returned OK but the key is not reachable afterwards (first keys of an empty tree inserted concurrently)",
+                                      JObj().str("key", keys[t][i]).str("get", st(gs)).boolean("walker_reaches", reach.count(keys[t][i]) != 0U).boolean("scan_returns", scanned.count(keys[t][i]) != 0U).num("threads", T).num("round", rd).done());
+                    }
+                }
+            }
+            if (reach.size() != ok) { rep.violation("rootrace:reachable-key-count", "number of reachable keys differs from the number of successful puts", JObj().num("reachable", reach.size()).num("acknowledged", ok).done()); }
+            yk::base_node* root = ti->load_root_ptr();
+            if (root != nullptr) {
+                root->destroy();
+                delete root; // NOLINT
+            }
+            delete ti; // NOLINT
+        }
+        alloc::Counters c1 = alloc::counters();
+        bool lost = false;
+        if (!directory && kclass == 0 && T * per <= 15) {
+            // all keys fit one border: every further border allocated was the speculative root of a loser
+            lost = c1.node_allocs - c0.node_allocs > 1;
+        } else {
+            lost = c1.frees_by_worker - c0.frees_by_worker > 0; // a worker frees memory only when it destroys its speculative root
+        }
+        if (lost) {
+            ++lost_races;
+            rep.distinct(mix64(T, mix64(per, mix64(kclass, directory ? 1 : 0))));
+        }
+        rep.count("rounds");
+        if (rd % 64 == 63) {
+            // nothing of the destroyed trees may be left (values retired by nobody here: only speculative roots are freed directly)
+            Session s;
+            s.reenter();
+            s.leave();
+        }
+        if (rd == 0) { rep.sample(JObj().num("threads", T).num("keys_per_thread", per).num("key_class", kclass).boolean("directory", directory).done()); }
+    }
+    rep.count("rounds_with_a_lost_root_race", lost_races);
+    yk::fin();
+    alloc::Counters cf = alloc::counters();
+    if (cf.live_blocks != 0) { rep.violation("rootrace:blocks-live-after-fin", "library blocks still allocated after every tree was destroyed and fin() returned", JObj().num("live", cf.live_blocks).done()); }
+    drain_alloc_problems(rep);
+    if (lost_races < 5) { rep.inconclusive("fewer than 5 rounds in which a thread lost the race for the root"); }
+    return rep.finish();
+}
